@@ -132,6 +132,7 @@ func (P *Program) RunJob(job *Job) *JobResult {
 				ex.stop()
 				return
 			}
+			sol.Assuming = os.Getenv("VERIF_ASSUMING") == "1"
 			var transcript *bytes.Buffer
 			if job.CrossCheck {
 				transcript = &bytes.Buffer{}
